@@ -81,6 +81,11 @@ func (core *JApiCore) next(lexeme scanner.Lexeme) *jerr.JApiError {
 		if core.currentDirective == nil {
 			return core.noDirectiveError(lexeme)
 		}
+		if core.currentDirective.HasExplicitContext {
+			// A second parenthesis would be forgotten: one closing parenthesis
+			// closes the directive, the other one is left without a match.
+			return core.japiError("the context of the directive is already opened", lexeme.Begin())
+		}
 		core.processContextBegin()
 		return nil
 
